@@ -21,8 +21,9 @@ RULE = (
 def run(tier, seed):
     return kc.run_property(
         PID, LEVEL, tier, seed, THEMES,
-        quick_num=10 if len(THEMES) > 1 else 24, thorough_num=250,
-        assumptions=kc.COMMON_ASSUMPTIONS, rule=RULE, needed_events=NEEDED)
+        quick_num=14 if len(THEMES) > 1 else 30, thorough_num=250,
+        assumptions=kc.COMMON_ASSUMPTIONS, rule=RULE, needed_events=NEEDED,
+        mc_cfgs=(['MC_Krill_q_chain.cfg', 'MC_Krill_q_life.cfg'] if tier == "quick" else ['MC_Krill_q_chain.cfg', 'MC_Krill_q_life.cfg', 'MC_Krill_chain.cfg', 'MC_Krill_life.cfg']))
 
 
 def replay(path, seed):
